@@ -7,6 +7,9 @@ pub fn family() -> Family {
     Family { name: "c07", cases, check }
 }
 
+trait GetLen { fn get_len(&self) -> usize; }
+impl<F> GetLen for print::Printer<Sink, F> { fn get_len(&self) -> usize { LAST_LEN.with(|c| c.get()) } }
+thread_local! { static LAST_LEN: std::cell::Cell<usize> = std::cell::Cell::new(0); }
 struct Sink { out: Vec<u8>, per_call: usize, fail_at: Option<usize>, fail_call: Option<usize>, calls: usize, zero_call: Option<usize> }
 impl Write for Sink {
     fn write(&mut self, buf: &[u8]) -> io::Result<usize> {
@@ -19,6 +22,7 @@ impl Write for Sink {
         let mut n = buf.len().min(self.per_call);
         if let Some(f) = self.fail_at { n = n.min(f - self.out.len()); }
         self.out.extend_from_slice(&buf[..n]);
+        LAST_LEN.with(|c| c.set(self.out.len()));
         Ok(n)
     }
     fn flush(&mut self) -> io::Result<()> { Ok(()) }
@@ -155,6 +159,26 @@ fn check(case: &str) -> Option<String> {
                 let (a, b) = (pr.into_inner().out, pc.into_inner().out);
                 if a != want { return Some(format!("one Printer used for four values (sink takes {} bytes per call) delivered {:?}, the texts are {:?}", k, String::from_utf8_lossy(&a), String::from_utf8_lossy(&want))); }
                 if b != want { return Some(format!("one customised Printer (default options) used for four values delivered {:?}, the texts are {:?}", String::from_utf8_lossy(&b), String::from_utf8_lossy(&want))); }
+            }
+            // a Printer whose sink failed once in the middle of a value: the NEXT print call still delivers exactly its own value's text
+            for k in 1..6usize {
+                let first = Value::list(vec![Value::from("a string with \"quotes\" and more text"), Value::symbol("sym"), Value::from("second string")]);
+                for custom in [false, true] {
+                    LAST_LEN.with(|c| c.set(0));
+                    let sink = Sink { out: vec![], per_call: if custom { 3 } else { usize::MAX }, fail_at: None, fail_call: Some(k), calls: 0, zero_call: None };
+                    let (r1, before, out, t2) = if custom {
+                        let mut p = print::Printer::with_options(sink, print::Options::elisp());
+                        let r1 = p.print(&first).is_ok(); let before = p.get_len();
+                        if p.print(&v).is_err() { return Some("Printer::print fails although the sink accepts bytes again".into()); }
+                        (r1, before, p.into_inner().out, lexpr::to_string_custom(&v, print::Options::elisp()).unwrap().into_bytes())
+                    } else {
+                        let mut p = print::Printer::new(sink);
+                        let r1 = p.print(&first).is_ok(); let before = p.get_len();
+                        if p.print(&v).is_err() { return Some("Printer::print fails although the sink accepts bytes again".into()); }
+                        (r1, before, p.into_inner().out, lexpr::to_string(&v).unwrap().into_bytes())
+                    };
+                    if before > out.len() || out[before..] != t2[..] { return Some(format!("a {}Printer whose sink failed once (write call {}, first print ok: {}) then prints {:?} as {:?}", if custom { "customised " } else { "" }, k, r1, String::from_utf8_lossy(&t2), String::from_utf8_lossy(&out[before.min(out.len())..]))); }
+                }
             }
             // the serde companion crate prints through the same printer: its writer entry points against short-writing and failing sinks
             #[cfg(feature = "with-serde")]
